@@ -136,39 +136,65 @@ def _numeric_grad_flags():
     return copies, in_finally
 
 
-def _numeric_jacobian_private():
+def _numeric_jacobian_flags():
+    """(x is flattened into a NEW array, the perturbed arrays are x.copy()s)"""
     m = astlib.module("klongpy/autograd.py")
     fn = astlib.find_func(m, "numeric_jacobian")
     vals = [v for v in _assigns_to(fn, "x") if "to_numpy" not in ast.unparse(v)]
     if len(vals) != 1:
         raise ShapeError("numeric_jacobian: conversion of x")
     v = vals[0]
-    if not (isinstance(v, ast.Call) and isinstance(v.func, ast.Attribute) and v.func.attr == "flatten"):
-        return False
-    if not set(_store_bases(fn)) <= {"x_plus", "x_minus", "jacobian"}:
-        return False
+    if not (isinstance(v, ast.Call) and isinstance(v.func, ast.Attribute) and not v.args):
+        raise ShapeError("numeric_jacobian: conversion %s" % ast.unparse(v))
+    if v.func.attr in ("flatten", "copy"):
+        flat_copy = True
+    elif v.func.attr == "ravel":
+        flat_copy = False
+    else:
+        raise ShapeError("numeric_jacobian: conversion %s" % ast.unparse(v))
+    if _conversion_copies(v.func.value) is None:
+        raise ShapeError("numeric_jacobian: conversion %s" % ast.unparse(v))
+    bases = set(_store_bases(fn))
+    if not bases <= {"x_plus", "x_minus", "jacobian"}:
+        raise ShapeError("numeric_jacobian: stores to %r" % sorted(bases))
+    pert_copy = True
     for nm in ("x_plus", "x_minus"):
         a = _assigns_to(fn, nm)
-        if len(a) != 1 or ast.unparse(a[0]) != "x.copy()":
-            return False
-    return True
+        if len(a) != 1:
+            raise ShapeError("numeric_jacobian: %s" % nm)
+        if ast.unparse(a[0]) == "x":
+            pert_copy = False
+        elif ast.unparse(a[0]) not in ("x.copy()", "np.array(x)", "np.copy(x)"):
+            raise ShapeError("numeric_jacobian: %s = %s" % (nm, ast.unparse(a[0])))
+    return flat_copy, pert_copy
+
+
+def _touches_klong(node):
+    return any(isinstance(t, ast.Subscript) and ast.unparse(t.value) == "klong"
+               for n in ast.walk(node) for t in (n.targets if isinstance(n, ast.Assign) else [n.target] if isinstance(n, ast.AugAssign) else []))
 
 
 def _rebind_restores_in_finally(fn, bind_stmt, restore_stmt):
-    """fn body is  <bind_stmt>; try: return ... finally: <restore_stmt>   (True)  or the restore is sequenced (False)"""
+    """fn body is  <bind_stmt>; try: ... finally: <restore_stmt> [; return ...]   (True)
+    or the restore is a plain statement after the call (False).  No other assignment to klong[...]."""
     body = astlib.body_no_doc(fn)
     if not body or ast.unparse(body[0]) != bind_stmt:
         raise ShapeError("%s: first statement is not %s" % (fn.name, bind_stmt))
-    tries = [n for n in body if isinstance(n, ast.Try)]
-    if len(tries) == 1 and len(body) == 2:
+    rest = body[1:]
+    tries = [n for n in rest if isinstance(n, ast.Try)]
+    if len(tries) == 1:
         t = tries[0]
         if t.handlers or t.orelse:
             raise ShapeError("%s: try has handlers" % fn.name)
-        if [ast.unparse(s) for s in t.finalbody] == [restore_stmt]:
-            return True
-        raise ShapeError("%s: finally body is not %s" % (fn.name, restore_stmt))
-    if not tries and any(ast.unparse(s) == restore_stmt for s in body):
-        return False
+        if [ast.unparse(s) for s in t.finalbody] != [restore_stmt]:
+            raise ShapeError("%s: finally body is not %s" % (fn.name, restore_stmt))
+        if any(_touches_klong(s) for s in t.body) or any(_touches_klong(s) for s in rest if s is not t):
+            raise ShapeError("%s: other assignments to klong[...]" % fn.name)
+        return True
+    if not tries:
+        rs = [s for s in rest if ast.unparse(s) == restore_stmt]
+        if len(rs) == 1 and not any(_touches_klong(s) for s in rest if s is not rs[0]):
+            return False
     raise ShapeError("%s: restore discipline not recognised" % fn.name)
 
 
@@ -235,8 +261,9 @@ def generate():
     ng = flag("numeric_grad", _numeric_grad_flags)
     out.append("Definition ng_input_conversion_copies : bool := %s." % astlib.coq_bool(bool(ng and ng[0])))
     out.append("Definition ng_restore_in_finally : bool := %s." % astlib.coq_bool(bool(ng and ng[1])))
-    out.append("Definition ng_shape_ok : bool := %s." % astlib.coq_bool(ng is not None))
-    out.append("Definition nj_writes_private_copies : bool := %s." % astlib.coq_bool(bool(flag("numeric_jacobian", _numeric_jacobian_private))))
+    nj = flag("numeric_jacobian", _numeric_jacobian_flags)
+    out.append("Definition nj_flattens_into_copy : bool := %s." % astlib.coq_bool(bool(nj and nj[0])))
+    out.append("Definition nj_perturbs_copies : bool := %s." % astlib.coq_bool(bool(nj and nj[1])))
     out.append("Definition grad_func_restores_in_finally : bool := %s." % astlib.coq_bool(bool(flag("eval_dyad_grad.func", _grad_finally))))
     out.append("Definition mg_restores_in_finally : bool := %s." % astlib.coq_bool(bool(flag("call_fn_with_tensors", _mg_finally))))
     out.append("Definition mj_restores_in_finally : bool := %s." % astlib.coq_bool(bool(flag("single_param_fn", _mj_finally))))
@@ -649,15 +676,21 @@ def compare_case(chk, backend, case, fault, r, m):
 
 
 def in_alias_class(backend, case, r):
-    """K: numeric path and the parameter is an ndarray/tensor over a float64 buffer"""
+    """K: numeric path, the parameter is an ndarray/tensor over a float64 buffer, and the damage is to the CONTENTS of that very
+    object (same object, same type, dtype, shape, requires_grad still bound to the same name)"""
     numeric = case["form"] == "nablasym" or (backend == "numpy" and case["form"] in ("gradvar", "gradmulti"))
-    if not numeric:
+    if not numeric or len(r["final"]) != len(r["init"]):
         return False
     pnames = ["p"] if case["form"] in ("gradvar", "nablasym") else ["w", "b"]
-    for name, c in r["init"]:
-        if name in pnames and c[0] in ("nd", "tt") and c[1] == "float64":
-            return True
-    return False
+    hit = False
+    for (name, c), (name2, d) in zip(r["init"], r["final"]):
+        if c == d:
+            continue
+        if not (name == name2 and name in pnames and c[0] in ("nd", "tt") and c[1] == "float64" and d[0] == c[0]
+                and d[1:3] == c[1:3] and d[4:] == c[4:]):
+            return False
+        hit = True
+    return hit
 
 
 def run(tier, replay=None):
